@@ -94,19 +94,20 @@ MNames == FNames \o <<"p">>
 HasFlag(h, f) == Has(h.a, f)
 
 Tuple0 == Op("tuple", "", <<>>)
-ConstT == Op("tuple", "", <<IntL(1), StrL("a")>>)
+ConstT == Op("tuple", "", <<IntL(2), IntL(1)>>)
 IsTypes == IF Wide THEN {"int", "str", "tuple", "list", "bool"} ELSE {"int", "tuple"}
 
 (* atoms of unknown type: names and attributes.  To keep a fair share of the calls free of type errors, int-wanting
    holes prefer a, x, g and o.w, sequence-wanting holes prefer b, y and the class attribute v; A holes take everything *)
 NotForI == {"b", "y"}
 NotForQ == {"a", "x", "g"}
+SortOf(n) == IF n \in NotForQ THEN "I" ELSE IF n \in NotForI THEN "Q" ELSE "A"
 NameAtoms(h) ==
-    {Nm(x) : x \in Range(h.p) \ (IF h.s = "I" THEN NotForI ELSE IF h.s = "Q" THEN NotForQ ELSE {})}
-    \cup (IF HasFlag(h, "C") /\ h.s # "Q" THEN {Op("attr", "w", <<Nm("o")>>)} ELSE {})
-    \cup (IF HasFlag(h, "C") /\ h.s # "I" THEN {Op("attr", "v", <<Nm("o")>>), Op("attr", "v", <<Nm("C")>>)} ELSE {})
-    \cup (IF HasFlag(h, "m") /\ h.s # "Q" THEN {Op("attr", "w", <<Nm("self")>>)} ELSE {})
-    \cup (IF HasFlag(h, "m") /\ h.s # "I" THEN {Op("attr", "v", <<Nm("self")>>)} ELSE {})
+    {Nm(x) : x \in Range(h.p) \ (IF h.s = "I" THEN NotForI ELSE IF h.s \in {"Q", "P", "PP"} THEN NotForQ ELSE {})}
+    \cup (IF HasFlag(h, "C") /\ h.s \in {"I", "A"} THEN {Op("attr", "w", <<Nm("o")>>)} ELSE {})
+    \cup (IF HasFlag(h, "C") /\ h.s \in {"Q", "A"} THEN {Op("attr", "v", <<Nm("o")>>), Op("attr", "v", <<Nm("C")>>)} ELSE {})
+    \cup (IF HasFlag(h, "m") /\ h.s \in {"I", "A"} THEN {Op("attr", "w", <<Nm("self")>>)} ELSE {})
+    \cup (IF HasFlag(h, "m") /\ h.s \in {"Q", "A"} THEN {Op("attr", "v", <<Nm("self")>>)} ELSE {})
 
 EProds(h) ==
     LET d == h.i
@@ -114,14 +115,17 @@ EProds(h) ==
         I == E("I")
         Q == E("Q")
         A == E("A")
-        W == Range(h.w)
+        P == E("P")
+        \* := to a name whose role fits the hole
+        WFor(s) == {n \in Range(h.w) : SortOf(n) \in {s, "A"}}
         incomp == HasFlag(h, "comp")
         \* parts of comprehensions: the element sees the iteration variable, the iterable cannot contain :=
         El(s) == Hole(s, d - 1, h.p \o <<"j">>, IF HasFlag(h, "c") THEN <<>> ELSE h.w, h.a \o <<"comp">>)
         It == Hole("Q", d - 1, h.p, <<>>, h.a)
         Comp(kind, elt, cond) == N("comp", kind, 0, <<"j">>, <<>>, <<elt, It, cond>>)
         Conds == IF Wide THEN {TrueL, El("A")} ELSE {TrueL}
-        Lam(s) == CallN(N("lambda", "", 0, <<"p">>, <<>>, <<Hole(s, d - 1, h.p \o <<"p">>, <<>>, <<"lam">>)>>), <<A>>)
+        Lam(s) == CallN(N("lambda", "", 0, <<"p">>, <<>>, <<Hole(s, d - 1, h.p \o <<"p">>, <<>>, <<"lam">>)>>), <<E(s)>>)
+        TupOf(e) == CallN(Nm("tuple"), <<e>>)
         UserCalls == (IF HasFlag(h, "H") THEN {CallN(Nm("h"), <<A>>), CallN(Nm("h"), <<A, A>>)}
                                               \cup (IF Wide THEN {CallN(Nm("h"), <<>>)} ELSE {}) ELSE {})
                      \cup (IF HasFlag(h, "C") THEN {CallN(Op("attr", "m", <<Nm("o")>>), <<A>>)} ELSE {})
@@ -132,7 +136,7 @@ EProds(h) ==
                      \cup {Op("neg", "", <<I>>), Op("cond", "", <<A, I, I>>), Op("log", "", <<I>>), Op("sub", "", <<Q, I>>),
                            CallN(Nm("len"), <<Q>>), CallN(Nm("abs"), <<I>>), CallN(Nm("int"), <<A>>), CallN(Nm("sum"), <<Q>>),
                            CallN(Nm("min"), <<I, I>>), CallN(Nm("max"), <<I, I>>), CallN(Nm("max"), <<Q>>), Lam("I")}
-                     \cup {Op("walrus", n, <<I>>) : n \in W}
+                     \cup {Op("walrus", n, <<I>>) : n \in WFor("I")}
                      \cup UserCalls
                      \cup (IF incomp THEN {} ELSE
                            {CallN(Nm("sum"), <<Comp("gen", El("I"), c)>>) : c \in Conds}
@@ -140,30 +144,47 @@ EProds(h) ==
           [] h.s = "Q" ->
                {Tuple0, ConstT, StrL("b")} \cup NameAtoms(h)
                \cup (IF d <= 0 THEN {} ELSE
-                     {Op("tuple", "", <<A, A>>), Op("tuple", "", <<A>>), Op("list", "", <<A, A>>), Op("bin", "+", <<Q, Q>>),
+                     {Op("tuple", "", <<A, A>>), Op("tuple", "", <<A>>), Op("list", "", <<A, A>>),
+                      Op("bin", "+", <<TupOf(Q), TupOf(Q)>>), Op("bin", "+", <<CallN(Nm("list"), <<Q>>), Op("list", "", <<A>>)>>),
                       Op("bin", "*", <<Q, I>>), Op("cond", "", <<A, Q, Q>>), Op("log", "", <<Q>>),
-                      CallN(Nm("tuple"), <<Q>>), CallN(Nm("list"), <<Q>>), CallN(Nm("sorted"), <<Q>>), CallN(Nm("range"), <<I>>)}
-                     \cup {Op("walrus", n, <<Q>>) : n \in W}
+                      TupOf(Q), CallN(Nm("list"), <<Q>>), CallN(Nm("sorted"), <<Q>>), CallN(Nm("range"), <<I>>)}
+                     \cup (IF Wide THEN {Op("bin", "+", <<Q, Q>>)} ELSE {})
+                     \cup {Op("walrus", n, <<Q>>) : n \in WFor("Q")}
                      \cup (IF incomp THEN {} ELSE
                            {Comp("list", El("A"), c) : c \in Conds}
-                           \cup {CallN(Nm(b), <<Comp("gen", El("A"), c)>>) : b \in {"tuple", "list", "sorted"}, c \in Conds}
+                           \cup {CallN(Nm(b), <<Comp("gen", El("A"), c)>>) : b \in {"tuple", "list"}, c \in Conds}
                            \cup {Comp("dict", Op("pair", "", <<El("A"), El("A")>>), TrueL),
-                                 CallN(Nm("sorted"), <<Comp("set", El("A"), TrueL)>>),
+                                 CallN(Nm("sorted"), <<Comp("gen", El("I"), TrueL)>>),
+                                 CallN(Nm("sorted"), <<Comp("set", El("I"), TrueL)>>),
                                  \* closures created in a comprehension share the iteration variable
                                  Comp("list", N("lambda", "", 0, <<>>, <<>>, <<Nm("j")>>), TrueL),
                                  Comp("list", CallN(N("lambda", "", 0, <<>>, <<>>, <<Nm("j")>>), <<>>), TrueL)}))
+          [] h.s = "P" ->        \* a sequence of two items
+               {ConstT} \cup NameAtoms(h)
+               \cup {Op("tuple", "", <<Hole("A", d, h.p, h.w, h.a), Hole("A", d, h.p, h.w, h.a)>>),
+                     Op("list", "", <<Hole("A", d, h.p, h.w, h.a), Hole("A", d, h.p, h.w, h.a)>>)}
+               \cup (IF d <= 0 THEN {} ELSE
+                     {Op("cond", "", <<A, P, P>>), Op("log", "", <<P>>), Op("bin", "*", <<Op("tuple", "", <<A>>), IntL(2)>>),
+                      CallN(Nm("sorted"), <<P>>), TupOf(P)}
+                     \cup {Op("walrus", n, <<P>>) : n \in WFor("Q")}
+                     \cup (IF incomp THEN {} ELSE {Comp("list", El("A"), TrueL)}))       \* over a two-item iterable with luck
+          [] h.s = "PP" ->       \* ((.., ..), ..)
+               {Op("tuple", "", <<Hole("P", d, h.p, h.w, h.a), Hole("A", d, h.p, h.w, h.a)>>),
+                Op("list", "", <<Hole("P", d, h.p, h.w, h.a), Hole("A", d, h.p, h.w, h.a)>>)}
+               \cup (IF Wide THEN NameAtoms(h) ELSE {})
           [] h.s = "A" ->
                {NoneL, IntL(1), StrL("b")} \cup NameAtoms(h)
                \cup (IF d <= 0 THEN {} ELSE
                      {Hole("I", d, h.p, h.w, h.a), Hole("Q", d, h.p, h.w, h.a),
-                      Op("bin", "<", <<I, I>>), Op("bin", "<", <<A, A>>), Op("bin", "==", <<A, A>>), Op("bin", "in", <<A, Q>>),
+                      Op("bin", "<", <<I, I>>), Op("bin", "==", <<A, A>>), Op("bin", "in", <<A, Q>>),
                       Op("not", "", <<A>>), Op("and", "", <<A, A>>), Op("or", "", <<A, A>>), Op("cond", "", <<A, A, A>>),
                       CallN(Nm("any"), <<Q>>), CallN(Nm("all"), <<Q>>), CallN(Nm("bool"), <<A>>), Op("sub", "", <<Q, I>>),
-                      Op("attr", "w", <<A>>), Lam("A")}
+                      Lam("A")}
+                     \cup (IF Wide THEN {Op("attr", "w", <<A>>), Op("bin", "<", <<A, A>>)} ELSE {})
                      \cup {CallN(Nm("isinstance"), <<A, Nm(ty)>>) : ty \in IsTypes}
-                     \cup {Op("walrus", n, <<A>>) : n \in W}
+                     \cup {Op("walrus", n, <<A>>) : n \in WFor("A")}
                      \cup UserCalls
-                     \cup (IF HasFlag(h, "C") THEN {Op("attr", "u", <<Nm("o")>>)} ELSE {})
+                     \cup (IF HasFlag(h, "C") /\ Wide THEN {Op("attr", "u", <<Nm("o")>>)} ELSE {})
                      \cup (IF incomp THEN {} ELSE
                            {CallN(Nm(b), <<Comp("gen", El("A"), c)>>) : b \in {"any", "all"}, c \in Conds}))
 
@@ -178,22 +199,28 @@ SProds(h) ==
         lv == IF HasFlag(h, "f") THEN "i" ELSE "q"
         LoopBody == Hole("S", h.i - 1, IF Has(h.p, lv) THEN h.p ELSE h.p \o <<lv>>, h.w, IF HasFlag(h, "loop") THEN h.a ELSE h.a \o <<"loop">>)
         Pairs == {<<m, n>> \in W \X W : m # n}
-    IN  {Assign(Nm(n), EH("A")) : n \in W}
-        \cup {Op("aug", o, <<Nm(n), EH("I")>>) : o \in {"+", "-", "*"}, n \in W}
-        \cup {Op("aug", "+", <<Nm(n), EH("Q")>>) : n \in W}
-        \cup {Assign(Tup(<<Nm(pr[1]), Nm(pr[2])>>), EH("Q")) : pr \in Pairs}
+        Lst == Op("list", "", <<EH("A"), EH("A")>>)
+    IN  {Assign(Nm(n), EH(SortOf(n))) : n \in W}
+        \cup (IF Wide THEN {Assign(Nm(n), EH("A")) : n \in W} ELSE {})
+        \cup {Op("aug", o, <<Nm(n), EH("I")>>) : o \in {"+", "-", "*"}, n \in {m \in W : SortOf(m) # "Q"}}
+        \cup {Op("aug", "+", <<Nm(n), EH("Q")>>) : n \in {m \in W : SortOf(m) # "I"}}
+        \cup {Op("aug", "*", <<Nm(n), EH("I")>>) : n \in {m \in W : SortOf(m) = "Q"}}
+        \cup {Assign(Tup(<<Nm(pr[1]), Nm(pr[2])>>), EH("P")) : pr \in Pairs}
         \cup {Assign(Tup(<<Nm(pr[1]), Star(Nm(pr[2]))>>), EH("Q")) : pr \in Pairs}
         \cup {Assign(Tup(<<Star(Nm(pr[1])), Nm(pr[2])>>), EH("Q")) : pr \in Pairs}
-        \cup {Assign(Tup(<<Tup(<<Nm(pr[1]), Nm(pr[2])>>), Nm(pr[1])>>), EH("Q")) : pr \in Pairs}
-        \cup {Assign(Op("sub", "", <<Nm(n), I0>>), EH("A")) : n \in W}
-        \cup {Op("aug", "+", <<Op("sub", "", <<Nm(n), I0>>), EH("I")>>) : n \in W}
-        \cup {Op("expr", "", <<Op("log", "", <<EH("A")>>)>>), Op("raise", "ValueError", <<EH("A")>>)}
-        \cup (IF HasFlag(h, "C") THEN {Assign(Op("attr", "w", <<Nm("o")>>), EH("A")), Assign(Op("attr", "v", <<Nm("o")>>), EH("A")),
+        \cup {Assign(Tup(<<Tup(<<Nm(pr[1]), Nm(pr[2])>>), Nm(pr[1])>>), EH("PP")) : pr \in Pairs}
+        \* n = [.., ..]; n[k] = ..   /   n[k] += ..   (item assignment needs a list)
+        \cup {Block(<<Assign(Nm(n), Lst), Assign(Op("sub", "", <<Nm(n), I0>>), EH("A"))>>) : n \in W}
+        \cup {Block(<<Assign(Nm(n), Lst), Op("aug", "+", <<Op("sub", "", <<Nm(n), I0>>), EH("I")>>)>>) : n \in W}
+        \cup (IF Wide THEN {Assign(Op("sub", "", <<Nm(n), I0>>), EH("A")) : n \in W} ELSE {})
+        \cup {Op("expr", "", <<Op("log", "", <<EH("A")>>)>>)}
+        \cup (IF Wide THEN {Op("raise", "ValueError", <<EH("A")>>)} ELSE {})
+        \cup (IF HasFlag(h, "C") THEN {Assign(Op("attr", "w", <<Nm("o")>>), EH("I")), Assign(Op("attr", "v", <<Nm("o")>>), EH("Q")),
                                        Op("aug", "+", <<Op("attr", "w", <<Nm("o")>>), EH("I")>>),
-                                       Op("aug", "+", <<Op("attr", "v", <<Nm("C")>>), EH("I")>>),
+                                       Op("aug", "+", <<Op("attr", "v", <<Nm("C")>>), EH("Q")>>),
                                        Op("aug", "*", <<Op("attr", "v", <<Nm("o")>>), EH("I")>>)} ELSE {})
-        \cup (IF HasFlag(h, "m") THEN {Assign(Op("attr", "w", <<Nm("self")>>), EH("A")),
-                                       Op("aug", "+", <<Op("attr", "v", <<Nm("self")>>), EH("I")>>)} ELSE {})
+        \cup (IF HasFlag(h, "m") THEN {Assign(Op("attr", "w", <<Nm("self")>>), EH("I")),
+                                       Op("aug", "+", <<Op("attr", "v", <<Nm("self")>>), EH("Q")>>)} ELSE {})
         \cup (IF HasFlag(h, "ret") THEN {Ret(EH("A"))} ELSE {})
         \cup (IF HasFlag(h, "loop") THEN {Leaf("break", "", 0), Leaf("continue", "", 0)} ELSE {})
         \cup (IF h.i > 0 THEN {Op("if", "", <<EH("A"), S1, S1>>), Op("if", "", <<EH("A"), S1, PassS>>)} ELSE {})
@@ -215,25 +242,25 @@ DHProds(h) ==
 (* class C: v = <expr>; [u = <expr over v>]; [def __init__(self, p): self.w = <expr>]; def m(self, p): ...;   o = C(..) *)
 DCProds(h) ==
     LET hf == IF HasFlag(h, "H") THEN <<"H">> ELSE <<>>
-        CE(names) == Hole("A", EDepth, names, <<>>, <<"c">> \o hf)
+        CE(srt, names) == Hole(srt, EDepth, names, <<>>, <<"c">> \o hf)
         MFl == <<"m", "ret">> \o hf
         InitD == N("def", "__init__", 0, <<"self", "p">>, <<>>,
-                   <<Block(<<Assign(Op("attr", "w", <<Nm("self")>>), Hole("A", EDepth, MNames, <<"p">>, MFl))>>)>>)
+                   <<Block(<<Assign(Op("attr", "w", <<Nm("self")>>), Hole("I", EDepth, MNames, <<"p">>, MFl))>>)>>)
         Meth(decl, k) ==
             LET w == IF decl = <<>> THEN <<"p">> ELSE <<"p", decl[2]>>
             IN  N("def", "m", 0, <<"self", "p">>, decl,
                   <<Block((IF k = 1 THEN <<Hole("S", 0, MNames, w, MFl)>> ELSE <<>>) \o <<Ret(Hole("A", EDepth, MNames, w, MFl))>>)>>)
         Cls(u, ini, decl, k) ==
             N("class", "C", 0, <<>>, <<>>,
-              <<Block(<<Assign(Nm("v"), CE(FNames))>>
-                      \o (IF u THEN <<Assign(Nm("u"), CE(FNames \o <<"v">>))>> ELSE <<>>)
+              <<Block(<<Assign(Nm("v"), CE("Q", FNames))>>
+                      \o (IF u THEN <<Assign(Nm("u"), CE("A", FNames \o <<"v">>))>> ELSE <<>>)
                       \o (IF ini THEN <<InitD>> ELSE <<>>)
                       \o <<Meth(decl, k)>>)>>)
-        Mk(ini) == Assign(Nm("o"), CallN(Nm("C"), IF ini THEN <<Hole("A", 0, FNames, <<>>, <<"f">>)>> ELSE <<>>))
+        Mk(ini) == Assign(Nm("o"), CallN(Nm("C"), IF ini THEN <<Hole("I", 0, FNames, <<>>, <<"f">>)>> ELSE <<>>))
     IN  {Block(<<Cls(u, ini, decl, k), Mk(ini)>>) :
             u \in BOOLEAN, ini \in BOOLEAN, decl \in {<<>>, <<"nonlocal", "x">>}, k \in {0, 1}}
 
-Prods(h) == CASE h.s \in {"I", "Q", "A"} -> EProds(h)
+Prods(h) == CASE h.s \in {"I", "Q", "A", "P", "PP"} -> EProds(h)
               [] h.s = "S" -> SProds(h)
               [] h.s \in {"DH", "DL"} -> DHProds(h)
               [] h.s = "DC" -> DCProds(h)
@@ -985,19 +1012,24 @@ Obs(r) ==
 
 NoMs == [heap |-> <<>>, glob |-> EmptyD]
 
-Init == /\ prog \in {Skeleton(sh, ns) : sh \in Shapes, ns \in 1..MaxS}
+(* Sample mode: one random derivation of the grammar, complete in the initial state *)
+RECURSIVE Derive(_)
+Derive(n) == IF n.t = "hole" THEN Derive(RandomElement(Prods(n)))
+             ELSE [n EXCEPT !.a = [k \in 1..Len(n.a) |-> Derive(n.a[k])]]
+
+Init == /\ pid \in 1..NProg
+        /\ IF Sample THEN prog = Skeleton(RandomElement(Shapes), RandomElement(1..MaxS))
+           ELSE prog \in {Skeleton(sh, ns) : sh \in Shapes, ns \in 1..MaxS}
         /\ phase = "gen"
         /\ ms = NoMs
         /\ hist = <<>>
         /\ ncall = 0
-        /\ pid \in 1..NProg
 
 Fill == /\ phase = "gen"
         /\ HasHole(prog)
         /\ LET path == HolePath(prog)
                ps == Prods(NodeAt(prog, path, 1))
-           IN  IF Sample THEN prog' = FillAt(prog, path, 1, RandomElement(ps))
-               ELSE \E sub \in ps : prog' = FillAt(prog, path, 1, sub)
+           IN  IF Sample THEN prog' = Derive(prog) ELSE \E sub \in ps : prog' = FillAt(prog, path, 1, sub)
         /\ UNCHANGED <<phase, ms, hist, ncall, pid>>
 
 (* the module body: g = 0; def f(a, b): ... *)
@@ -1064,6 +1096,6 @@ ObsOK == \A k \in 1..Len(hist) : LET o == hist[k]
 
 GenOK == phase = "gen" => ms = NoMs /\ hist = <<>> /\ ncall = 0
 
-Publish == (Dump /\ Finished) => PrintT("@@" \o ToJson([prog |-> prog, obs |-> hist]))
+Publish == (Dump /\ Finished) => PrintT("@@" \o ToJson([pid |-> pid, prog |-> prog, obs |-> hist]))
 
 =============================================================================
